@@ -70,7 +70,8 @@ def hostOp (w : World) (h : Nat) (t : List String) : World × String :=
   | ["net_repair1", a, b] => (w.ctlRepairOneway (hostOf a) (hostOf b), "ok")
   | ["net_hold", a, b] => (w.ctlHold (hostOf a) (hostOf b), "ok")
   | ["net_release", a, b] => (w.ctlRelease (hostOf a) (hostOf b), "ok")
-  | ["sleep", _] => (w, "ok")
+  | ["sleep", ms] => let (w, _) := w.opSleep h (ms.toNat?.getD 0); (w, "ok")
+  | ["clock"] => w.opClock h
   | ["lookup", name] => let (ip, w) := w.dnsLookup name; (w, s!"ok {ip}")
   | _ => (w, "err unknownop")
 
@@ -125,6 +126,10 @@ def ctlOp (s : RState) (t : List String) : RState :=
   | ["deliver", a, b, i] =>
     { s with w := w.ctlDeliver (hostOf a) (hostOf b) (i.toNat?.getD 0), expectObs := none }
   | ["mark", _] => { s with expectObs := some "ok" }
+  | ["reglate"] =>
+    let i := w.hosts.length
+    let (ip, w) := w.dnsLookup s!"n{i}"
+    { s with w := w.register ip false, expectObs := some s!"ok {i} ip={ip}" }
   | ["simclock"] => { s with expectObs := some s!"ok elapsed={w.elapsed} epoch={1700000000000000000 + w.elapsed}" }
   | _ => { s with expectObs := none }
 
@@ -136,7 +141,7 @@ def line (s : RState) (ln : Nat) (l : String) : RState :=
   | "TURN" :: i :: _ =>
     let h := i.toNat?.getD 0
     let s := if s.expectEv.isEmpty then s else s.fail ln s!"expected {s.expectEv.head!} before TURN"
-    let (envs, w) := s.w.deliverTo h
+    let (envs, w) := (s.w.turnBegin h).deliverTo h
     { s with w := { w with cur := some h }, expectEv := envs.map evLine }
   | "EV" :: "delivered" :: _ =>
     match s.expectEv with
@@ -185,7 +190,7 @@ def line (s : RState) (ln : Nat) (l : String) : RState :=
   | _ => s
 
 def parseCfg (toks : List String) (link : Cfg) (fixLeak fixFin : Bool) : WCfg :=
-  { tick := kvNat toks "tick_ms" 1 * 1000000,
+  { tick := (if kvNat toks "tick_us" 0 > 0 then kvNat toks "tick_us" 0 * 1000 else kvNat toks "tick_ms" 1 * 1000000),
     tcpCap := kvNat toks "tcpcap" 64, udpCap := kvNat toks "udpcap" 64,
     ephLo := kvNat toks "ephlo" 49152, ephHi := kvNat toks "ephhi" 65535,
     link := link, fixConnectLeak := fixLeak, fixFinRedrain := fixFin }
